@@ -1,6 +1,7 @@
 """C10: acceptance does not depend on top-level declaration order (analyser, two functions)."""
 import vcheck
 import C16
+from E2_common import class_order_queries
 
 
 def queries(tier):
@@ -12,15 +13,17 @@ def queries(tier):
                                  'harness_order', [order, k, extra],
                                  'main calls gg with %d argument(s), gg declares %d int parameter(s), %s: verdict must be %s in either order; node positions symbolic'
                                  % (k + extra, k, 'gg declared first' if order == 0 else 'main declared first', 'Semantic error' if extra else 'accepted'), tier))
-    return qs
+    return qs + class_order_queries(tier)
 
 
 META = dict(
-    level_text='bounded symbolic execution of the real SemanticAnalyser::analyse on two-function programs in both orders: the verdict is a function of the '
-               'program\'s content (call matches signature or not), never of the order of the declarations',
-    assumptions=['programs enumerated (order x arity x match), node positions symbolic'],
-    bounds={'declarations': 2, 'parameters': '0..2'},
-    outside=['class order (derived before base) in the analyser and in buildClassTable', 'module merge order', 'permutations of more than two declarations', 'printed output'],
+    level_text='bounded symbolic execution of the real SemanticAnalyser::analyse on two-function programs in both orders (the verdict is a function of the '
+               'program\'s content, never of the order of the declarations) and of the real RuntimeEvaluator::buildClassTable on two- and three-class '
+               'hierarchies in every declaration order (layouts, slots and dispatch entries are the same in every order)',
+    assumptions=['programs enumerated (order x arity x match; class declaration permutations), node positions symbolic',
+                 'runtimeSignatureLabel modelled (name + one letter per parameter kind; the real one formats through std::ostringstream)'],
+    bounds={'function declarations': 2, 'parameters': '0..2', 'classes': '2 (both orders), 3-chain (all 6 orders thorough, 2 quick)'},
+    outside=['class order in the analyser (classes are hand-built past it)', 'generic bases and generic class templates', 'module merge order', 'permutations of more than two function declarations or of hierarchies other than the 3-chain', 'printed output'],
 )
 
 
